@@ -132,7 +132,7 @@ fn run_wins(ty: Ty, be: usize, s: &Series, m: usize, p: Option<f64>) -> Vec<Cell
     let r = match (ty, be) {
         (Ty::F, 0) => imp::wins(&s.f(), m, p),
         (Ty::F, 1) => imp::wins(&rot_deque(&s.f(), 2), m, p),
-        (Ty::F, _) => imp::wins(&Array1::from_vec(s.f()), m, p),
+        (Ty::F, _) => { let r = Array1::from_vec(s.f().into_iter().rev().collect::<Vec<f64>>()); imp::wins(&r.slice(tevec::export::ndarray::s![..;-1]), m, p) }   // reversed contiguous view (stride -1)
         (Ty::O, 0) => imp::wins(&s.o(), m, p),
         (Ty::O, _) => imp::wins(&rot_deque(&s.o(), 1), m, p),
         (Ty::I, 0) => imp::wins(&s.i(), m, p),
@@ -155,7 +155,7 @@ fn run_spear(ty: Ty, be: usize, a: &Series, b: &Series, mp: Option<usize>) -> Ve
     match (ty, be) {
         (Ty::F, 0) => imp::spear_f(&a.f(), &b.f(), mp),
         (Ty::F, 1) => imp::spear_f(&rot_deque(&a.f(), 2), &rot_deque(&b.f(), 1), mp),
-        (Ty::F, _) => imp::spear_f(&Array1::from_vec(a.f()), &Array1::from_vec(b.f()), mp),
+        (Ty::F, _) => { let ra = Array1::from_vec(a.f().into_iter().rev().collect::<Vec<f64>>()); let rb = Array1::from_vec(b.f().into_iter().rev().collect::<Vec<f64>>()); imp::spear_f(&ra.slice(tevec::export::ndarray::s![..;-1]), &rb.slice(tevec::export::ndarray::s![..;-1]), mp) }
         (Ty::O, 0) => imp::spear_o(&a.o(), &b.o(), mp),
         (Ty::O, _) => imp::spear_o(&rot_deque(&a.o(), 1), &rot_deque(&b.o(), 2), mp),
         (Ty::I, 0) => imp::spear_i(&a.i(), &b.i(), mp),
@@ -167,7 +167,7 @@ fn run_hl(ty: Ty, be: usize, s: &Series, mp: Option<usize>) -> Result<usize, u8>
     match (ty, be) {
         (Ty::F, 0) => imp::hl_f(&s.f(), mp),
         (Ty::F, 1) => imp::hl_f(&rot_deque(&s.f(), 2), mp),
-        (Ty::F, _) => imp::hl_f(&Array1::from_vec(s.f()), mp),
+        (Ty::F, _) => { let r = Array1::from_vec(s.f().into_iter().rev().collect::<Vec<f64>>()); imp::hl_f(&r.slice(tevec::export::ndarray::s![..;-1]), mp) }
         (Ty::O, 0) => imp::hl_o(&s.o(), mp),
         (Ty::O, _) => imp::hl_o(&rot_deque(&s.o(), 1), mp),
         (Ty::I, 0) => imp::hl_i(&s.i(), mp),
